@@ -115,9 +115,9 @@ TraceExpandSplit ==
 TraceProbe ==
   /\ IsEv("probe")
   /\ LET e == Trace[l] IN
-     \* both entry points (a reader, a file path) are the same strict parser
-     Rec((IF e.kind = "unknown" THEN Cl(~e.accepted /\ ~e.accepted_file, "C16.unknown_key_rejected")
-          ELSE Cl(e.accepted /\ e.accepted_file, "C16.defined_key_accepted"))
+     \* every entry point (a reader; a file path, whether the file is called .yaml or .json) is the same strict parser
+     Rec((IF e.kind = "unknown" THEN Cl(~e.accepted /\ ~e.accepted_file_any, "C16.unknown_key_rejected")
+          ELSE Cl(e.accepted /\ e.accepted_file_all, "C16.defined_key_accepted"))
          \cup Cl(e.file_same, "C16.file_and_reader_entry_points_agree"), {}, {})
   /\ UNCHANGED <<cid, ncases>>
 
@@ -139,6 +139,9 @@ TraceExpand ==
                    ELSE Cl(e.obs = <<e.raw>>, "C16.content_expand_opt_in_only"))
            ELSE IF ~hasDollar THEN Cl(e.obs = asWritten, "C16.no_dollar_unchanged")
            ELSE IF documented THEN Cl(e.obs = expanded, IF isList THEN "C16.list_expanded_trimmed_dropped" ELSE "C16.documented_field_expanded")
+           \* outside the documented fields and the as-is list nothing is expanded: the value stays as written
+           ELSE IF StripOverride(e.path) \notin AsIsAlsoExpanded /\ StripOverride(e.path) = e.path
+                THEN Cl(~(e.obs = expanded /\ expanded # asWritten), "C16.expansion_stays_within_its_scope")
            ELSE {}
          doc == IF e.err = "" /\ ~isC /\ hasDollar /\ ~documented /\ e.obs = expanded /\ expanded # asWritten
                 THEN {"DOC.undocumented_field_expanded:" \o StripOverride(e.path)} ELSE {}
